@@ -15,9 +15,6 @@ def run(ctx):
         ctx.leanchecker(["AvoVerif.Props.C01", "AvoVerif.Props.C01Tables", "AvoVerif.Props.C01Pipeline"])
     nt = lambda req, resp: req.startswith("accept-alloc") and "=> ok 0" not in req and "=> err" not in req
     ctx.run_corpus("c01", nontrivial=nt)
-    if ctx.replay:
-        ctx.differential("c01", 0, nontrivial=nt)
-        return
     n = 2500 if ctx.tier == "quick" else 60000
     ctx.differential("c01", n, nontrivial=nt)
     ctx.coverage["rule"] = ("generated functions (all GP widths incl. 8H views of the same virtual, XMM/YMM/ZMM, K, author-chosen physical "
